@@ -201,14 +201,55 @@ func (r *rig) quiesce(n *int, live map[string]bool, rounds int) bool {
 	return true
 }
 
+// fakeRemote: the engine's remote in cases with a subscriber on another node; what the engine hands to it for that
+// subscriber is the subscriber's log
+type fakeRemote struct {
+	addr string
+	r    *rig
+}
+
+func (f *fakeRemote) Address() string             { return f.addr }
+func (f *fakeRemote) Start(*actor.Engine) error   { return nil }
+func (f *fakeRemote) Stop() *sync.WaitGroup       { return &sync.WaitGroup{} }
+func (f *fakeRemote) Send(pid *actor.PID, msg any, sender *actor.PID) {
+	r := f.r
+	if pid == nil {
+		return
+	}
+	for name, p := range r.pids {
+		if strings.HasPrefix(name, "r") && p.Address == pid.Address && p.ID == pid.ID {
+			if ev, ok := r.abstract(msg); ok {
+				r.mu.Lock()
+				r.logs[name] = append(r.logs[name], ev)
+				r.mu.Unlock()
+			}
+		}
+	}
+}
+
+const nodeAddr = "127.0.0.1:4000"
+
 func runCase(c *Case) (seen map[string][]Ev, problem string) {
-	e, err := actor.NewEngine(actor.NewEngineConfig())
+	cfg := actor.NewEngineConfig()
+	r := &rig{logs: map[string][]Ev{}, pids: map[string]*actor.PID{}, copies: map[string]*actor.PID{}, flush: make(chan int, 1024), names: map[string]string{}, respawn: map[string]bool{}}
+	if _, remote := c.Got["r1"]; remote {
+		cfg = cfg.WithRemote(&fakeRemote{addr: nodeAddr, r: r})
+	}
+	e, err := actor.NewEngine(cfg)
 	if err != nil {
 		panic(err)
 	}
-	r := &rig{e: e, logs: map[string][]Ev{}, pids: map[string]*actor.PID{}, copies: map[string]*actor.PID{}, flush: make(chan int, 1024), names: map[string]string{}, respawn: map[string]bool{}}
+	r.e = e
 	live := map[string]bool{}
 	for name := range c.Got {
+		if name == "r1" {
+			// on another node: the address is one character shorter than this node's, the id one longer, so that
+			// address ++ id equals that of the local subscriber s1
+			r.pids[name] = actor.NewPID(nodeAddr[:len(nodeAddr)-1], nodeAddr[len(nodeAddr)-1:]+"sub/s1")
+			r.copies[name] = actor.NewPID(r.pids[name].Address, r.pids[name].ID)
+			r.logs[name] = []Ev{}
+			continue
+		}
 		r.pids[name] = e.Spawn(r.recorder(name), "sub", actor.WithID(name))
 		r.copies[name] = actor.NewPID(r.pids[name].Address, r.pids[name].ID)
 		r.names[r.pids[name].ID] = name
